@@ -1162,6 +1162,7 @@ class FnAnalysis:
             env[("p", l)] = self._pending_pred
         if not M.place_proj(place):
             env.pop(("discr", l), None)
+            env.pop(("vp", l), None)
             if self._pending_discr is not None and self._pending_discr[0][0] != l:
                 env[("discr", l)] = self._pending_discr
 
@@ -1365,6 +1366,9 @@ class FnAnalysis:
                 e2 = dict(env)
                 k = ("variant", poss[val])
                 self.set_path(e2, rp[0], rp[1], Rec({k: cur.f[k]}))
+                vp_ = env.get(("vp", rp[0])) if not rp[1] else None
+                if vp_ and poss[val] in vp_:
+                    e2 = self.refine(e2, vp_[poss[val]][0], vp_[poss[val]][1])
                 outs.append((tgt, e2))
             rest = {v: n for v, n in poss.items() if v not in taken}
             if not rest:
@@ -1373,6 +1377,10 @@ class FnAnalysis:
                 e2 = dict(env)
                 if isinstance(cur, Rec):
                     self.set_path(e2, rp[0], rp[1], Rec({("variant", n): cur.f[("variant", n)] for n in rest.values()}))
+                vp_ = env.get(("vp", rp[0])) if not rp[1] else None
+                if vp_ and len(rest) == 1 and next(iter(rest.values())) in vp_:
+                    nm_ = next(iter(rest.values()))
+                    e2 = self.refine(e2, vp_[nm_][0], vp_[nm_][1])
                 outs.append((t["else"], e2))
             return outs
         # integer switch on a variable: refine equality
@@ -1535,6 +1543,7 @@ class FnAnalysis:
         dty = self.lty(dl)
         val = None
         handled = False
+        vp_new = None
         c = M.Call(bb, t, self.b)
         locals_ = eng.resolve(c, self.subst)
         gargs = [self.sty(x) for x in (fnj.get("args") or [])] if "ptr" not in fnj else []
@@ -1572,6 +1581,27 @@ class FnAnalysis:
                 first = False
             if val is None:
                 val = eng.top(dty)
+            # a guard moved into a helper (`ensure(cond, msg)?`): when the helper returns Ok exactly for `cond == true` and Err
+            # exactly for `cond == false`, the variant of its result carries the caller's predicate on `cond`
+            vp_new = None
+            if len(locals_) == 1 and isinstance(val, Rec) and eng.fns[locals_[0]].kind != "Closure":
+                for i_, (ao, av) in enumerate(zip(t["args"], args)):
+                    pl_ = M.op_place(ao)
+                    if pl_ is None or M.place_proj(pl_) or not isinstance(av, AV) or (av.lo, av.hi) != (0, 1):
+                        continue
+                    pr_ = env.get(("p", M.place_local(pl_)))
+                    if pr_ is None or self.lty(M.place_local(pl_)) != "bool":
+                        continue
+                    try:
+                        rt_ = eng.call_fn(locals_[0], args[:i_] + [AV(1, 1)] + args[i_ + 1:], self.stack, {})
+                        rf_ = eng.call_fn(locals_[0], args[:i_] + [AV(0, 0)] + args[i_ + 1:], self.stack, {})
+                    except Exception:
+                        break
+                    vt_ = {k[1] for k in rt_.f if isinstance(k, tuple)} if isinstance(rt_, Rec) else set()
+                    vf_ = {k[1] for k in rf_.f if isinstance(k, tuple)} if isinstance(rf_, Rec) else set()
+                    if len(vt_) == 1 and len(vf_) == 1 and vt_ != vf_ and (vt_ | vf_) in ({"Ok", "Err"}, {"Some", "None"}):
+                        vp_new = {next(iter(vt_)): (pr_, True), next(iter(vf_)): (pr_, False)}
+                    break
             # a summary the analysis could not compute is of unknown provenance: never reported
             val = self.conform(val, dty, False, "")
             # values of the typestate-checked types are valid wherever they come from (C02 R6)
@@ -1607,7 +1637,17 @@ class FnAnalysis:
         e2.pop(("p", dl), None)
         e2.pop(("alias", dl), None)
         e2.pop(("abs", dl), None)
+        e2.pop(("vp", dl), None)
         self.write(e2, dest, val)
+        if locals_ and vp_new is not None and not M.place_proj(dest):
+            e2[("vp", dl)] = vp_new
+        if name == "branch" and "Try" in path and t["args"] and not M.place_proj(dest):
+            # Try::branch keeps the variant: Ok/Some -> Continue, Err/None -> Break
+            ap_ = M.op_place(t["args"][0])
+            src_vp = env.get(("vp", M.place_local(ap_))) if (ap_ is not None and not M.place_proj(ap_)) else None
+            if src_vp:
+                e2[("vp", dl)] = {{"Ok": "Continue", "Some": "Continue", "Err": "Break", "None": "Break"}.get(k, k): v
+                                  for k, v in src_vp.items()}
         # predicates produced by calls
         if name == "contains" and ("RangeInclusive" in path or "ops::range::Range" in path) and len(t["args"]) == 2:
             rng = args[0]
